@@ -189,7 +189,7 @@ PROPS["C12"] = dict(
 )
 
 PROPS["C16"] = dict(
-    n_quick=480, n_thorough=20000, shards=16, coq_dirs=["C16"], no_shrink=True, confirm_runs=2, go_build_flags=["-race"],
+    n_quick=480, n_thorough=20000, shards=16, coq_dirs=["C16"], no_shrink=True, confirm_runs=4, go_build_flags=["-race"],
     rule="cases: (11/12) real-time histories on a limiter tree (period 40 ms): 3-28 operations among Use (amounts -3..cap+4, incl. 0, cap, "
          "cap+1), New (child caps 1..30, also above the parent's), SetCap, Close (children, sometimes the root), tick (wait for the next "
          "period), always ending with a tick and the root's Close; operations are issued 10 ms after a tick and the answers of a tick are "
@@ -206,7 +206,7 @@ PROPS["C16"] = dict(
 )
 
 PROPS["C15"] = dict(
-    n_quick=640, n_thorough=40000, shards=16, coq_dirs=["C15"], no_shrink=True, confirm_runs=2, go_build_flags=["-race"],
+    n_quick=640, n_thorough=40000, shards=16, coq_dirs=["C15"], no_shrink=True, confirm_runs=4, go_build_flags=["-race"],
     rule="cases: (3/4) gated histories: Workers in {1,2,3}, Depth in {-1,0,1,2,5}, 1..2*Workers+4 tasks or enough to fill workers, task "
          "channel, backlog and input channel so that Submit blocks; 1/8 of the tasks panic; 2-14 environment moves (raise the submitter's "
          "allowed mark, release a task - mostly the oldest, sometimes any, also before it started -, request Shutdown), then everything "
